@@ -244,12 +244,20 @@ def genItems (depth : Nat) : Nat → R → SL × R
     if sel s 3 == 0 then let d := genDcl true (lcg s); let r := genItems depth k d.2; (.consD d.1 r.1, r.2)
     else let st := genS depth (lcg s); let r := genItems depth k st.2; (.cons st.1 r.1, r.2)
 
-def genParam (x : String) (s : R) : Param × R :=
+def genParam (x : String) (s : R) : PItem × R :=
   let sp := genSpecs false s
-  let d := genD x (lcg sp.2)
-  ({ specs := sp.1, d := d.1 }, d.2)
+  if sel sp.2 3 == 0 then
+    -- an unnamed parameter: specifiers and stars
+    let s1 := lcg sp.2
+    let n := sel s1 3
+    let stars : List (List Tk) := (List.range n).map fun i =>
+      if sel (s1 + i * 7919) 4 == 0 then [pick [("CONST", "const"), ("VOLATILE", "volatile"), ("RESTRICT", "restrict")] (s1 + i)] else []
+    (.unnamed { specs := sp.1, stars := stars }, lcg s1)
+  else
+    let d := genD x (lcg sp.2)
+    (.named { specs := sp.1, d := d.1 }, d.2)
 
-def genParamsRest : Nat → R → List Param → List Param × R
+def genParamsRest : Nat → R → List PItem → List PItem × R
   | 0, s, acc => (acc.reverse, s)
   | k+1, s, acc => let p := genParam ("q" ++ toString k) (lcg s); genParamsRest k p.2 (p.1 :: acc)
 
